@@ -21,6 +21,9 @@ pub fn op_arith(w: &mut World, heights: &[u8], start: u64, steps: u8) {
     if total >= 64 {
         w.rep.stats.probe("tall-shape(sum>=64)");
     }
+    // the history starts from an injected persisted state (a counter at or around a radix boundary, the last
+    // leaf, beyond it, or a random one) and round-trips through its 8-byte encoding at every step
+    w.fault("counter-state-injected");
     let mut c = start;
     let mut log = format!("arith {:?} start={}:", heights, start);
     for step in 0..=steps {
